@@ -75,8 +75,9 @@ class Remote:
         self.buffer = b''
         self.consumed = 0
         self.chunks: list[tuple[float, bytes]] = []
-        self.closed_at: float | None = None
+        self.closed_at: float | None = None  # when the remote saw exabgp's end close (EOF / reset)
         self.close_kind: str | None = None
+        self.local_closed_at: float | None = None  # when the remote closed its own end
         self.messages: list[tuple[float, int, bytes]] = []  # (vtime of last byte, type, body)
         self.bad_framing = False
         self.msg_size = 65535
@@ -128,6 +129,8 @@ class Remote:
         return await self.send(codec.frame(mtype, body))
 
     def close(self, reset: bool = False) -> None:
+        if self.local_closed_at is None:
+            self.local_closed_at = self.h.loop.time()
         if reset:
             try:
                 self.sock.setsockopt(socket.SOL_SOCKET, socket.SO_LINGER, struct.pack('ii', 1, 0))
@@ -259,8 +262,10 @@ class Harness:
 
         def change(self_, state):
             before = self_.state.name
+            proto = getattr(self_.peer, 'proto', None)
+            conn = id(proto.connection) if proto is not None and proto.connection is not None else None
             r = real_change(self_, state)
-            harness.fsm_log.append((harness.loop.time(), harness._peer_key(self_.peer), before, self_.state.name))
+            harness.fsm_log.append((harness.loop.time(), harness._peer_key(self_.peer), before, self_.state.name, conn))
             harness.loop.note_activity()
             return r
 
